@@ -990,6 +990,54 @@ def add_noise(t, r, suite):
             elif c < 0.5:
                 f.at['_noise'] = ['%s(ignore = false)' % noise]
 
+# ---- known findings: fixed probes of defects that are recorded (known_findings.txt) rather than repaired.
+# Each probe is a module that SHOULD compile and pass by the property; while the defect is present it does not,
+# and the check prints KNOWN-FINDING for it (the key is stable: 'known:<name>').
+KNOWN_PROBES = {
+    'copy_bound_clone_method': ('C01', '''
+pub mod ty { #![deny(warnings)] #![allow(dead_code)] use educe::Educe;
+  fn dup(x: &u8) -> u8 { *x }
+  #[derive(Educe)] #[educe(Clone, Copy)]
+  pub enum T<X> { V(#[educe(Clone(method = dup))] u8, X), W } }
+pub fn run(out: &mut Out) { let _ = ty::T::<u8>::W; out.check(true, "known_copy_bound_clone_method", "compile", || String::new()); }'''),
+    'debugfield_helper_bound': ('C01', '''
+pub mod ty { #![deny(warnings)] #![allow(dead_code)] use educe::Educe;
+  fn show<X: ::core::fmt::Display>(x: &X, f: &mut ::core::fmt::Formatter<'_>) -> ::core::fmt::Result { write!(f, "{}", x) }
+  #[derive(Educe)] #[educe(Debug(bound(X: ::core::fmt::Display)))]
+  pub struct T<X> { #[educe(Debug(method = show))] pub a: X } }
+pub fn run(out: &mut Out) { let g = format!("{:?}", ty::T { a: 5u8 }); out.check(g == "T { a: 5 }", "known_debugfield_helper_bound", "debug", || g.clone()); }'''),
+    'non_snake_case_binding': ('C01', '''
+pub mod ty { #![deny(warnings)] #![allow(dead_code)] use educe::Educe;
+  #[derive(Educe)] #[educe(PartialEq, Clone, Hash)]
+  pub enum T { V { _a: u8, a: u8 }, W } }
+pub fn run(out: &mut Out) { let x = ty::T::V { _a: 1, a: 2 }; out.check(x == x.clone(), "known_non_snake_case_binding", "eq", || String::new()); }'''),
+    'deref_mut_shared_ref_field': ('C01', '''
+pub mod ty { #![deny(warnings)] #![allow(dead_code)] use educe::Educe;
+  #[derive(Educe)] #[educe(Deref, DerefMut)]
+  pub struct T<'a> { pub a: &'a mut u8 }
+  #[derive(Educe)] #[educe(Deref, DerefMut)]
+  pub struct U<'a> { pub a: &'a u8 } }
+pub fn run(out: &mut Out) { out.check(true, "known_deref_mut_shared_ref_field", "compile", || String::new()); }'''),
+    'into_reference_target_static': ('C10', '''
+pub mod ty { #![deny(warnings)] #![allow(dead_code)] use educe::Educe;
+  #[derive(Educe)] #[educe(Into(&'a u8))]
+  pub struct T<'a> { pub a: &'a u8, pub b: u16 } }
+pub fn run(out: &mut Out) { let v = 7u8; let r: &u8 = ::core::convert::Into::into(ty::T { a: &v, b: 1 }); out.check(*r == 7, "known_into_reference_target_static", "into", || String::new()); }'''),
+    'unqualified_primitive_names': ('C19', '''
+pub mod ty { #![deny(warnings)] #![allow(dead_code, non_camel_case_types)] use educe::Educe;
+  pub struct bool; pub struct u8;
+  #[derive(Educe)] #[educe(PartialEq)]
+  pub struct T { pub a: ::core::primitive::u16 } }
+pub fn run(out: &mut Out) { let x = ty::T { a: 1 }; out.check(x == x, "known_unqualified_primitive_names", "eq", || String::new()); }'''),
+}
+
+def known_modules(pid):
+    mods = []
+    for name, (p, src) in sorted(KNOWN_PROBES.items()):
+        if p == pid:
+            mods.append(('known_' + name, '// known-finding probe %s\n#![allow(dead_code, unused_variables, unused_imports)]\nuse crate::support::*;\n%s\n' % (name, src)))
+    return mods
+
 # ------------------------------------------------------------------ build & run
 MAIN_HEAD = '#![allow(clippy::all)]\nmod support;\n'
 
@@ -1063,12 +1111,18 @@ def run(pid, suites, tier, seed, n=None, hostile=False, only_ops=None):
                 mods.append((tid, src))
                 info[tid] = (t, src, meta)
         HOSTILE[0] = False
+        known = known_modules(pid)
+        for tid, src in known:
+            mods.append((tid, src))
+            info[tid] = (None, src, dict(known=True))
         lines, compile_fail, rc = build_and_run(mods)
         failures = []
         ran, checks = 0, 0
         for line in lines:
             p = line.split('\t')
-            if p[0] == 'FAIL' and len(p) >= 4:
+            if p[0] == 'FAIL' and len(p) >= 4 and p[1].startswith('known_'):
+                failures.append(dict(key='known:' + p[1][6:], what='known-finding probe %s still fails: %s' % (p[1][6:], p[3][:200]), type_def=info[p[1]][1], detail=p[3], op=p[2]))
+            elif p[0] == 'FAIL' and len(p) >= 4:
                 t, src, meta = info[p[1]]
                 key = 'k2:%s:%s:%s' % (p[1].split('_')[0], p[2], hashlib.sha256((type_decl(t) + p[3]).encode()).hexdigest()[:10])
                 failures.append(dict(key=key, what='%s: real educe output disagrees with the oracle: %s' % (p[2], p[3][:300]),
@@ -1079,6 +1133,9 @@ def run(pid, suites, tier, seed, n=None, hostile=False, only_ops=None):
                 checks = int(p[1])
         for tid, msg in compile_fail.items():
             t, src, meta = info[tid]
+            if t is None:
+                failures.append(dict(key='known:' + tid[6:], what='known-finding probe %s still does not compile: %s' % (tid[6:], msg[:200]), type_def=src, detail=msg, op='compile'))
+                continue
             cls = 'non_snake_case_binding' if re.search(r'should have a snake case name', msg) and not re.search(r'\[E\d+\]', msg) else hashlib.sha256(type_decl(t).encode()).hexdigest()[:10]
             failures.append(dict(key='k2:compile:%s' % cls,
                                  what='generated code (or the oracle harness) for this accepted request does not compile: %s' % msg[:300],
